@@ -4,8 +4,9 @@ From SV Require Import Peg Neutral GenGrammar.
 From Coq Require Import Arith.
 Local Open Scope nat_scope.
 
-(* action numbers of the translator: 1 begin_directive, 2 end_directive, 3 begin_keywords, 4 end_keywords *)
-Definition dir_invisible : list N := [3; 4]%N.
+(* action numbers of the translator: 1 begin_directive, 2 end_directive, 3 begin_keywords("directive"), 4 end_keywords,
+   11..18 begin_keywords of the eight standards' names ("1364-1995" .. "1800-2017", in that order) *)
+Definition dir_invisible : list N := [3; 4; 11; 12; 13; 14; 15; 16; 17; 18]%N.
 Definition dir_inverse : list (N * N) := [(1, 2)]%N.
 Definition ver_invisible : list N := [1; 2]%N.
 Definition ver_inverse : list (N * N) := [(3, 4)]%N.
@@ -44,8 +45,8 @@ Definition with_index {X} (f : fexp -> list X) : list (nat * X) :=
 
 Theorem C12_version_stack_actions :
   with_index free_acts =
-    (start_version_specifier, 3%N) :: (start_version_specifier, 3%N) :: (start_version_specifier, 3%N) :: (start_version_specifier, 3%N) ::
-    (start_version_specifier, 3%N) :: (start_version_specifier, 3%N) :: (start_version_specifier, 3%N) :: (start_version_specifier, 3%N) ::
+    (start_version_specifier, 18%N) :: (start_version_specifier, 17%N) :: (start_version_specifier, 16%N) :: (start_version_specifier, 15%N) ::
+    (start_version_specifier, 14%N) :: (start_version_specifier, 13%N) :: (start_version_specifier, 12%N) :: (start_version_specifier, 11%N) ::
     [(start_endkeywords_directive, 4%N)] /\
   map snd (with_index wraps) = [(1, 2); (1, 2); (3, 4); (3, 4)]%N /\
   cert_ok grammar ver_invisible ver_inverse ver_neutral_cert = true.
